@@ -611,7 +611,7 @@ PROPS['C13'] = dict(
 # path behind it (conforming routers and target built by the independent encoder).  The model's part is the builder verdict; the rest is the
 # ground-truth oracle of the simulation, tagged per property.
 def is_e2e_line(inp):
-    return inp.startswith('e2e ')
+    return inp.startswith('e2e ') or inp.startswith('e2efam ')
 
 
 def compare_e2e(inp, impl_out, model_out):
